@@ -729,7 +729,31 @@ pub fn gen_scenario(rng: &mut Rng, profile: Profile, tier: Tier) -> CursorScn {
     // C16 also monitors "no operation panics on well-formed input": its base histories use
     // library-produced function sources far more often.
     let derived_pct = if profile == Profile::Mixed { 55 } else { 30 };
-    let funcs: Vec<FuncSpec> = (0..nfuncs).map(|_| gen_func(rng, allow_long, derived_pct)).collect();
+    let mut funcs: Vec<FuncSpec> = (0..nfuncs).map(|_| gen_func(rng, allow_long, derived_pct)).collect();
+    // thorough tier only: a handful of functions with about a million segments (index types, bisection
+    // depth, recursion): tag pieces, integer ends with occasional duplicates
+    if tier == Tier::Thorough && profile != Profile::Mixed && rng.chance(1, 100_000) {
+        let n = (1usize << 20) + rng.usize_in(0, 2) - 1;
+        let mut x = 0.0f64;
+        let dup = rng.chance(1, 2);
+        let ends: Vec<f64> = (0..n)
+            .map(|i| {
+                if !(dup && i % 5 == 3) {
+                    x += 1.0;
+                }
+                x
+            })
+            .collect();
+        funcs[0] = FuncSpec {
+            kind: Kind::P(0),
+            coefs: (0..n).map(|i| vec![(i + 1) as f64]).collect(),
+            ends,
+            source: crate::funcs::Source::Direct,
+            other: None,
+            ops: vec![],
+            post: crate::funcs::Post::None,
+        };
+    }
     let steer: Vec<Vec<f64>> = funcs.iter().map(steering_ends).collect();
     let nclients = match rng.below(10) {
         0..=4 => 1,
@@ -777,6 +801,10 @@ pub fn gen_scenario(rng: &mut Rng, profile: Profile, tier: Tier) -> CursorScn {
         _ => {
             if rng.chance(1, 100) {
                 nev = rng.usize_in(100, 1500);
+            }
+            // thorough tier only: a handful of very long histories
+            if tier == Tier::Thorough && rng.chance(1, 200_000) {
+                nev = rng.usize_in(20_000, 100_000);
             }
         }
     }
@@ -1510,7 +1538,37 @@ macro_rules! cursor_world_common {
     };
 }
 
+/// Reach counters by size class (bookkeeping only).
+fn size_classes(scn: &CursorScn, cov: &mut Cov) {
+    if !cov.enabled {
+        return;
+    }
+    for f in &scn.funcs {
+        cov.hit(match f.ends.len() {
+            0..=1 => "functions_with_1_segment",
+            2..=4 => "functions_with_2_4_segments",
+            5..=12 => "functions_with_5_12_segments",
+            13..=40 => "functions_with_13_40_segments",
+            41..=300 => "functions_with_41_300_segments",
+            301..=1100 => "functions_with_301_1100_segments",
+            1101..=100_000 => "functions_with_1101_100k_segments",
+            _ => "functions_with_over_100k_segments",
+        });
+    }
+    let n = scn.events.len() + scn.batches.iter().map(|b| b.xs.len()).sum::<usize>();
+    cov.hit(match n {
+        0..=2 => "histories_of_1_2_events",
+        3..=6 => "histories_of_3_6_events",
+        7..=16 => "histories_of_7_16_events",
+        17..=64 => "histories_of_17_64_events",
+        65..=400 => "histories_of_65_400_events",
+        401..=2000 => "histories_of_401_2000_events",
+        _ => "histories_of_over_2000_events",
+    });
+}
+
 fn explore_plain(scn: &CursorScn, judge: Judge, cov: &mut Cov, prog: &Progress) -> Outcome<CursorScn> {
+    size_classes(scn, cov);
     match execute(scn, judge, cov, prog) {
         RunResult::Clean { digest } => {
             if cov.enabled && nontrivial(scn) {
@@ -1737,6 +1795,7 @@ impl World for C16 {
     }
     fn explore(&self, base: &CursorScn, tier: Tier, cov: &mut Cov, prog: &Progress) -> Outcome<CursorScn> {
         let judge = Judge { evals: true, streams: false, build: true };
+        size_classes(base, cov);
         let total = c16_total(base, tier);
         let mut dig = Digest::new();
         for sub in 0..total {
